@@ -55,6 +55,24 @@ def seriesLimitFirstOf (genSeriesCalls : List String) : Bool :=
 def kvMemFirstOf (getOrCreateCalls : List String) : Bool :=
   (callsBefore getOrCreateCalls "bucket.GetValue").any (fun c => c = "s.GetValueFromMem" || c = "s.getValueFromMemWithSeq")
 
+/-- the number `Shard.flushStep` gives a step of `metricIndexDatabase.Flush` -/
+def indexStepId (call : String) : Option Nat :=
+  if call = "metricInverted.flush" then some 0
+  else if call = "forward.flush" then some 1
+  else if call = "inverted.flush" then some 2
+  else if call = "series.Flush" then some 3
+  else none
+
+/-- the steps of `metricIndexDatabase.Flush` in the order the source evaluates them -/
+def indexFlushStepsOf (guards : List (String × Bool)) : List Nat := guards.filterMap (fun g => indexStepId g.1)
+
+/-- is every step's error returned at once (`if err := step(); err != nil { return err }`)? -/
+def flushAbortsOf (guards : List (String × Bool)) : Bool :=
+  (guards.filter (fun g => (indexStepId g.1).isSome)).all (·.2)
+
+/-- the step list of the index flush as /repo has it now -/
+def currentIndexFlushSteps : List Nat := indexFlushStepsOf C09.indexFlushStepGuards
+
 /-- the variant of the code in /repo now -/
 def currentCfg : Cfg :=
   { kv := kvVariantOf C09.kvCreateValueCalls
@@ -71,6 +89,7 @@ def currentCfg : Cfg :=
     kvCacheAddGuarded := C09.kvGetOrCreateCalls.contains "s.addBucketCache" && !C09.kvGetOrCreateCalls.contains "bucketCache.Add" &&
       C09.kvAddBucketCacheCalls = ["lock.RLock", "defer:lock.RUnlock", "bucketCache.Add"]
     schemaLockedUsesCache := C09.schemaGetSchemaLockedCalls.contains "cache.Get"
+    indexFlushAborts := flushAbortsOf C09.indexFlushStepGuards
     prepareSwapsEmpty := [C09.kvPrepareFlushCalls, C09.schemaPrepareFlushCalls, C09.invertedPrepareFlushCalls,
       C09.forwardPrepareFlushCalls].all (·.contains "immutable.IsEmpty") }
 
